@@ -18,12 +18,12 @@ Print Assumptions C06_setmap_total.
 
 (* The summary table.  get_setmap is exactly the table of buckets (one entry per
    platform set that occurs on a node of a counted file, in first-occurrence
-   order, holding the sum of num_lines over those nodes).  Whenever
-   report.summary prints (it raises only if the table is non-empty and all counts
-   are 0), its rows are a permutation of the buckets, no platform set occurs
+   order, holding the sum of num_lines over those nodes).  report.summary
+   never raises (a zero total prints NaN percentages); its rows are a permutation of the buckets, no platform set occurs
    twice, each row carries count = its bucket and the denominator = SLOC (the
    printed percentage is count / denominator * 100), rows are ordered by
-   non-decreasing size of the platform set, and "Total SLOC" is the SLOC. *)
+   non-decreasing size of the platform set (ties broken by the sorted
+   names in the model; that part is observed by the correspondence only), and "Total SLOC" is the SLOC. *)
 Theorem C06_rows : forall files,
   get_setmap files = spec_buckets files /\
   (forall rows total, summary (get_setmap files) = Ok (rows, total) ->
@@ -32,9 +32,9 @@ Theorem C06_rows : forall files,
      Forall (fun r => scount r = bucket (skey r) files /\ stotal r = sloc files) rows /\
      NoDup (map skey rows) /\
      StronglySorted (fun a b => (List.length (skey a) <= List.length (skey b))%nat) rows) /\
-  (forall e, summary (get_setmap files) = Err e -> sloc files = 0 /\ spec_keys files <> []).
+  (exists rows, summary (get_setmap files) = Ok (rows, sloc files)).
 Proof.
-  intros files. split; [apply get_setmap_exact|]. split; [intros rows total; apply summary_rows | intros e; apply summary_err].
+  intros files. split; [apply get_setmap_exact|]. split; [intros rows total; apply summary_rows | apply summary_never_fails].
 Qed.
 Print Assumptions C06_rows.
 
@@ -150,9 +150,11 @@ Theorem C06_root_setmap_exact : forall files, links_ok files -> (forall f, In f 
 Proof. exact root_setmap_exact. Qed.
 Print Assumptions C06_root_setmap_exact.
 
-(* report.summary cannot raise (ZeroDivisionError) when every node counts at least one line. *)
-Theorem C06_summary_total : forall files, (forall f n, In f files -> In n (fnodes f) -> 0 < nnum n) ->
-  exists rows, summary (get_setmap files) = Ok (rows, sloc files).
+(* report.summary always prints, and when every node counts at least one line a
+   non-empty table has a positive denominator, so every percentage is a number. *)
+Theorem C06_summary_total : forall files,
+  (exists rows, summary (get_setmap files) = Ok (rows, sloc files)) /\
+  ((forall f n, In f files -> In n (fnodes f) -> 0 < nnum n) -> spec_keys files <> [] -> 0 < sloc files).
 Proof. exact summary_total. Qed.
 Print Assumptions C06_summary_total.
 
